@@ -447,30 +447,31 @@ func checkC04(c *Ctx, r *Report) {
 				}
 			}
 			for _, v := range vals {
-				t := v.Type()
-				// trace back through interface boxing and the overflow handler's parameter
-				rv, _ := rootVal(v, nil)
-				if p, ok := rv.(*ssa.Parameter); ok {
-					for _, cs := range c.callSitesOf(p.Parent()) {
+				// trace back through interface boxing and through parameters of the helpers that enqueue
+				// (overflow handler, an extracted enqueue function) to what the callers pass
+				var trace func(v ssa.Value, d int)
+				trace = func(v ssa.Value, d int) {
+					rv, _ := rootVal(v, nil)
+					if p, ok := rv.(*ssa.Parameter); ok && d < 4 && len(c.callSitesOf(p.Parent())) > 0 {
 						idx := 0
 						for i, q := range p.Parent().Params {
 							if q == p {
 								idx = i
 							}
 						}
-						av, _ := rootVal(cs.Common().Args[idx], nil)
-						sendTypes = append(sendTypes, types.TypeString(av.Type(), shortQual))
-						if !isEventPtr(av.Type()) && !isByteLike(av.Type()) {
-							okTypes = false
+						for _, cs := range c.callSitesOf(p.Parent()) {
+							trace(cs.Common().Args[idx], d+1)
 						}
+						return
 					}
-					continue
+					t := rv.Type()
+					sendTypes = append(sendTypes, types.TypeString(t, shortQual))
+					_, isSlice := t.Underlying().(*types.Slice)
+					if !isEventPtr(t) && !(isByteLike(t) && isSlice) { // a string would not match the worker's []byte case
+						okTypes = false
+					}
 				}
-				t = rv.Type()
-				sendTypes = append(sendTypes, types.TypeString(t, shortQual))
-				if !isEventPtr(t) && !isByteLike(t) {
-					okTypes = false
-				}
+				trace(v, 0)
 			}
 		})
 	}
@@ -480,7 +481,7 @@ func checkC04(c *Ctx, r *Report) {
 	} else {
 		r.Fail("C04.worker:send-types", c.pos(a.T.Obj().Pos()), "values of other types are sent on the buffer (%v): the worker's type switch would drop them silently", uniq(sendTypes))
 	}
-	r.Floor("sends on the buffer channel", len(sendTypes), 5)
+	r.Floor("sends on the buffer channel", len(sendTypes), 2)
 	// counter discipline
 	nAcc := 0
 	badAcc := 0
@@ -997,7 +998,13 @@ func checkC06(c *Ctx, r *Report) {
 	}
 	// policy semantics on the buffer-full path: run the overflow handler itself
 	var handler *ssa.Function
+	hcands := append([]*ssa.Function{}, c.moduleCallees(a.Append)...)
 	for _, f := range c.moduleCallees(a.Append) {
+		if recvNamed(f) == a.T {
+			hcands = append(hcands, c.moduleCallees(f)...) // through an extracted enqueue helper
+		}
+	}
+	for _, f := range hcands {
 		if recvNamed(f) == a.T && f != a.Append {
 			uses := false
 			eachInstr(f, func(in ssa.Instruction) {
@@ -1020,6 +1027,13 @@ func checkC06(c *Ctx, r *Report) {
 	for _, f := range c.moduleCallees(a.Write) {
 		if f == handler {
 			usesW = true
+		}
+		if recvNamed(f) == a.T {
+			for _, g := range c.moduleCallees(f) {
+				if g == handler {
+					usesW = true
+				}
+			}
 		}
 	}
 	if !usesW {
@@ -1681,6 +1695,19 @@ func (c *Ctx) checkCloseAll(r *Report, ro *Roles) {
 					return
 				}
 				var v ssa.Value
+				if hf := c.emptyingHelperField(call); hf == f {
+					// the helper takes the file out of this field itself and closes it
+					okG := true
+					for range guardsOfInstr(in) {
+						okG = false
+					}
+					if okG {
+						closed = true
+					} else {
+						why = "the closing helper is called conditionally"
+					}
+					return
+				}
 				if calleeIs(call, "os", "File", "Close") {
 					v = call.Call.Args[0]
 				} else if i, vv := c.closingHelperArg(call, func(a ssa.Value) bool { return c.fromFileField(a, f) }); i >= 0 {
@@ -1736,6 +1763,35 @@ func closesParam(f *ssa.Function, p *ssa.Parameter) bool {
 	if len(f.Blocks) == 0 {
 		return false
 	}
+	return closesValueFrom(f, p, f.Blocks[0])
+}
+
+// swapsOutAndCloses: f takes a pointer to a file holder (atomic.Pointer[os.File]) as parameter p, swaps nil into it
+// unconditionally (in its entry block) and closes what it took out whenever that is non-nil.
+func swapsOutAndCloses(f *ssa.Function, p *ssa.Parameter) bool {
+	if len(f.Blocks) == 0 {
+		return false
+	}
+	for _, in := range f.Blocks[0].Instrs {
+		call, ok := in.(*ssa.Call)
+		if !ok {
+			continue
+		}
+		sc := call.Common().StaticCallee()
+		if sc == nil || sc.Name() != "Swap" || len(call.Call.Args) != 2 || call.Call.Args[0] != ssa.Value(p) || !isNilConst(call.Call.Args[1]) {
+			continue
+		}
+		return closesValueFrom(f, call, f.Blocks[0])
+	}
+	return false
+}
+
+// closesValueFrom: no path from block `from` reaches a return without calling (*os.File).Close on p, except over the
+// edge on which p was just tested nil.
+func closesValueFrom(f *ssa.Function, p ssa.Value, from *ssa.BasicBlock) bool {
+	if len(f.Blocks) == 0 {
+		return false
+	}
 	closes := func(b *ssa.BasicBlock) bool {
 		for _, in := range b.Instrs {
 			if ci, ok := in.(ssa.CallInstruction); ok {
@@ -1779,7 +1835,26 @@ func closesParam(f *ssa.Function, p *ssa.Parameter) bool {
 		}
 		return true
 	}
-	return walk(f.Blocks[0])
+	return walk(from)
+}
+
+// emptyingHelperField: the call passes the address of a file-holding field to a module helper that swaps it empty and
+// closes the previous content; returns that field.
+func (c *Ctx) emptyingHelperField(call ssa.CallInstruction) *types.Var {
+	sc := call.Common().StaticCallee()
+	if sc == nil || !c.inModule(sc) || len(sc.Blocks) == 0 || call.Common().IsInvoke() {
+		return nil
+	}
+	for i, a := range call.Common().Args {
+		fa, ok := a.(*ssa.FieldAddr)
+		if !ok || i >= len(sc.Params) || !isFileHolder(fieldOfAddr(fa).Type()) {
+			continue
+		}
+		if swapsOutAndCloses(sc, sc.Params[i]) {
+			return fieldOfAddr(fa)
+		}
+	}
+	return nil
 }
 
 func isNilConst(v ssa.Value) bool {
@@ -1900,6 +1975,10 @@ func (c *Ctx) checkFdBound(r *Report, ro *Roles) {
 		}
 		cur := dec(s.A)
 		if _, isGo := in.(*ssa.Go); !isGo {
+			if hf := c.emptyingHelperField(ci); hf != nil {
+				cur.f[hf.Name()] = "empty"
+				return []string{enc(cur)}
+			}
 			if i, v := c.closingHelperArg(ci, func(a ssa.Value) bool { return cur.pend[a.Name()] }); i >= 0 {
 				delete(cur.pend, v.Name())
 				return []string{enc(cur)}
